@@ -57,7 +57,7 @@ def make_interp(timeout_ms):
     spec.install_spec_fns(I)
     for c in load_contracts():
         if c.modular:
-            I.contracts[c.key] = c
+            I.contracts.setdefault(c.key, []).append(c)
         if c.loops:
             I.loopspecs.setdefault((c.path, c.qualname), {}).update(c.loops)
     for m in getattr(spec, 'EXTRA_INSTALLERS', []):
